@@ -181,3 +181,13 @@ def _canary_read_addr_not_forwarded():
 CANARIES = [("Stack: simultaneous read and write increments the level", _canary_push_ignores_read),
             ("Stack: write not ready with one free slot", _canary_write_ready_off_by_one),
             ("Stack: read port addressed by the current instead of the next level", _canary_read_addr_not_forwarded)]
+
+
+def _callers_items():
+    from transactron.lib import Stack
+
+    return [("Stack(2 bits, depth 3)", lambda: Stack([("d", 2)], 3), [("read", ["read"]), ("write", ["write"])], [("peek", ["peek"]), ("clear", ["clear"])])]
+
+
+from ..excl import install as _install  # noqa: E402
+_install(globals(), _callers_items())
